@@ -6,6 +6,8 @@ import shapes as S
 import knotops as KO
 
 PID = 'C07'
+FLOAT_KINDS = {'split', 'decompose'}      # float-mode companion (core.float_companion)
+FLOAT_TOL = 1e-8
 STATS = G.STATS
 PARTIAL = [
     "proved end to end through splitDir / decomposeDir / decomposeUV (spans found by find_span_linear, closed end parameters included): split_curve, split_surface_u / split_surface_v (both pieces = original under the affine domain maps; other direction under the normalisation map of its knot vector), decompose_curve and decompose_surface 'u' / 'v' / 'uv' (exactly one Bezier piece per non-empty knot interval / pair of intervals, in order, each coinciding on its interval / rectangle). Hypotheses: degree >= 1, clamped knot vector in the split direction, inner knots repeated at most p times, find_multiplicity's tolerance separates the parameter from the other knots (decomposition: any two knots, domain length <= 1; surfaces: the other direction's knot vector normalised). Not proved: unclamped knot vectors, degree 0, inner knots of multiplicity > p, un-normalised other-direction knot vector in decompose_surface, volumes; checked by the exact oracle",
